@@ -61,7 +61,7 @@ def done(stage):
     return {json.loads(l)["id"]: json.loads(l) for l in open(p)} if os.path.exists(p) else {}
 
 def scratch(worker, m):
-    d = os.path.join(WORK, f"w{worker}")
+    d = os.path.join(WORK, f"w{STAGE}{worker}")
     subprocess.run(["rsync", "-a", "--delete", "--exclude", ".git", REPO + "/", d + "/"], check=True)
     p = os.path.join(d, m["file"])
     src = open(p, "rb").read()
@@ -115,7 +115,7 @@ def run_checks(worker, m, stage):
     d = scratch(worker, m)
     bdir = os.path.join(VERIF, ".build-" + hashlib.sha1(d.encode()).hexdigest()[:8])
     shutil.rmtree(bdir, ignore_errors=True)
-    env = dict(ENV, VERIF_REPO=d, VERIF_EVIDENCE_DIR=os.path.join(WORK, f"ev{worker}"), VERIF_BUILD_KINDS="plain" if stage == "B" else "plain race sched")
+    env = dict(ENV, VERIF_REPO=d, **({"VERIF_SCALE": "0.3"} if stage == "B" else {}), VERIF_EVIDENCE_DIR=os.path.join(WORK, f"ev{stage}{worker}"), VERIF_BUILD_KINDS="plain" if stage == "B" else "plain race sched")
     res = {k: m[k] for k in ("id", "file", "line", "op", "old", "new")}
     res["checks"] = {}
     t0 = time.time()
@@ -149,8 +149,12 @@ def run_checks(worker, m, stage):
     finally:
         shutil.rmtree(bdir, ignore_errors=True)
 
+STAGE = ""
+
 def main():
+    global STAGE
     stage, workers = sys.argv[1], int(sys.argv[2])
+    STAGE = stage
     only = set(sys.argv[3:])
     ms = mutants()
     if stage == "A":
@@ -161,6 +165,8 @@ def main():
     elif stage == "B":
         a = done("A"); b = done("B")
         todo = [m for m in ms if a.get(m["id"], {}).get("A") == "survives" and m["id"] not in b]
+        prio = ["websocket/realtime.go", "websocket/handler.go", "models/", "modules/vikja", "modules/odal", "http/", "receipt/", "featureflag/", "modules/dagaz/dagaz.go", "modules/dagaz/math.go", "modules/dagaz/", "cmd/"]
+        todo.sort(key=lambda m: next((i for i, p in enumerate(prio) if m["file"].startswith(p)), 99))
     else:
         b = done("B"); c = done("C")
         todo = [m for m in ms if b.get(m["id"], {}).get("verdict") == "not caught" and m["id"] not in c]
